@@ -24,8 +24,8 @@ TRUSTED = [
 ASSUMPTIONS = ["one goroutine drives the storage (interleavings of writers and reads, not data races: C23)",
                "no other process modifies the repository while the storage is open; Close of a writer does not fail with an I/O error",
                "the descriptor of a catalogued pack handle stays usable (pool capacity not exceeded within a case)"]
-RULE = ("case = (ExclusiveAccess, fs, idx kind, initial loose set, initial packs, history of <= 16 steps over 6 objects and 3 writer slots); "
-        "buckets: witness shapes (reader between open and close of an object / pack writer), random histories, enumerated short "
+RULE = ("case = (ExclusiveAccess, fs, idx kind, initial loose set, initial packs, history over 6 objects and up to 4 simultaneously open object / pack writers); "
+        "buckets: witness shapes (reader between open and close of an object / pack writer), ALL interleavings of two writers x reader placements, sampled interleavings of three, writers never closed, RawObjectWriter calls whose WriteHeader fails, random histories, enumerated short "
         "interleavings, duplicate / empty packs, slot misuse; non-trivial = some writer is closed after a lookup ran while it was open; "
         "distinct by content")
 
@@ -42,6 +42,8 @@ def op_coq(s):
         return "NewObj %d %d%%N" % (s["w"], s["k"])
     if o == "closeobj":
         return "CloseObj %d" % s["w"]
+    if o == "failobj":
+        return "FailObj"
     if o == "set":
         return "SetObj %d%%N" % s["k"]
     if o == "newpack":
@@ -111,34 +113,90 @@ def all_lookups(k):
 
 
 def random_history(rng, n):
+    """writers of 4 slots opened and closed at random (several open at once, some never closed, some abandoned by a
+    failing WriteHeader); right after a close, usually a lookup of what that writer wrote"""
     steps = []
     ow, pw = {}, {}
-    for _ in range(n):
+    while len(steps) < n:
         r = rng.random()
-        if r < 0.12:
-            w = rng.randrange(3)
-            steps.append({"op": "newobj", "w": w, "k": rng.randrange(NOBJ)})
-            ow.setdefault(w, 1)
-        elif r < 0.24:
-            w = rng.choice(sorted(ow)) if ow and rng.random() < 0.9 else rng.randrange(3)
-            steps.append({"op": "closeobj", "w": w})
-            ow.pop(w, None)
+        if r < 0.16:
+            w = rng.randrange(4)
+            k = rng.randrange(NOBJ)
+            steps.append({"op": "newobj", "w": w, "k": k})
+            ow.setdefault(w, k)
         elif r < 0.30:
+            w = rng.choice(sorted(ow)) if ow and rng.random() < 0.9 else rng.randrange(4)
+            steps.append({"op": "closeobj", "w": w})
+            k = ow.pop(w, None)
+            if k is not None and rng.random() < 0.75:
+                steps.append(rng.choice(all_lookups(k)[:6]))
+        elif r < 0.34:
+            steps.append({"op": "failobj", "k": rng.randrange(NOBJ), "badtype": rng.random() < 0.3})
+        elif r < 0.39:
             steps.append({"op": "set", "k": rng.randrange(NOBJ)})
-        elif r < 0.42:
-            w = rng.randrange(3)
-            steps.append({"op": "newpack", "w": w, "p": rmask(rng) if rng.random() < 0.9 else 0})
-            pw.setdefault(w, 1)
-        elif r < 0.54:
-            w = rng.choice(sorted(pw)) if pw and rng.random() < 0.9 else rng.randrange(3)
+        elif r < 0.50:
+            w = rng.randrange(4)
+            p = rmask(rng) if rng.random() < 0.9 else 0
+            steps.append({"op": "newpack", "w": w, "p": p})
+            pw.setdefault(w, p)
+        elif r < 0.62:
+            w = rng.choice(sorted(pw)) if pw and rng.random() < 0.9 else rng.randrange(4)
             steps.append({"op": "closepack", "w": w})
-            pw.pop(w, None)
-        elif r < 0.59:
+            p = pw.pop(w, None)
+            if p and rng.random() < 0.75:
+                k = rng.choice([k for k in range(NOBJ) if p >> k & 1])
+                steps.append(rng.choice(all_lookups(k)))
+        elif r < 0.66:
             steps.append({"op": "del", "k": rng.randrange(NOBJ)})
-        elif r < 0.63:
+        elif r < 0.69:
             steps.append({"op": "reindex"})
         else:
             steps.append(lookup(rng))
+    return steps
+
+
+READERS = [{"op": "has", "k": 5}, {"op": "iter", "t": ""}, {"op": "prefix", "k": 0, "n": 2}, {"op": "size", "k": 0},
+           {"op": "packs"}, {"op": "get", "k": 0, "t": ""}, {"op": "reindex"}]
+
+
+def orderings(m):
+    """all interleavings of the open/close events of m writers (open_i before close_i)"""
+    def rec(opened, closed):
+        if len(closed) == m:
+            yield []
+            return
+        if len(opened) < m:
+            i = len(opened)                      # writers are opened in index order (symmetry)
+            for rest in rec(opened + [i], closed):
+                yield [("open", i)] + rest
+        for i in opened:
+            if i not in closed:
+                for rest in rec(opened, closed + [i]):
+                    yield [("close", i)] + rest
+    return list(rec([], []))
+
+
+def writers_history(kinds, order, gaps, reader, abandon=None, fail_at=None):
+    """kinds[i] in 'op' ('o'bject writer of object i+1 / 'p'ack writer of {i+1, 5}); a reader op is put into the gaps
+    selected by the bit mask; after every close, every lookup of what was written — while the others are still open.
+    abandon = a writer that is opened and never closed; fail_at = position of a failing RawObjectWriter"""
+    steps = []
+    for pos, (ev, i) in enumerate(order):
+        if fail_at == pos:
+            steps.append({"op": "failobj", "k": 0, "badtype": pos % 2 == 1})
+        if gaps >> pos & 1:
+            steps.append(dict(reader))
+        k = i + 1
+        if ev == "open":
+            steps.append({"op": "newobj", "w": i, "k": k} if kinds[i] == "o" else {"op": "newpack", "w": i, "p": (1 << k) | 32})
+        elif i != abandon:
+            steps.append({"op": "closeobj", "w": i} if kinds[i] == "o" else {"op": "closepack", "w": i})
+            steps += all_lookups(k)[:6]
+    if gaps >> len(order) & 1:
+        steps.append(dict(reader))
+    for i in range(len(kinds)):
+        if i != abandon:
+            steps.append({"op": "has", "k": i + 1})
     return steps
 
 
@@ -155,7 +213,7 @@ class Main(Suite):
     name = "main"
     go_cmd = "c18"
     coq_imports = "From GoGit Require Import Model.ObjVis."
-    quick_n = 360
+    quick_n = 200
     thorough_n = 4000
 
     def gen(self, rng, n, tier):
@@ -178,6 +236,28 @@ class Main(Suite):
                                            {"op": "newpack", "w": 1, "p": 0}, {"op": "iter", "t": ""}, {"op": "closepack", "w": 1}] + all_lookups(2))
                 add("slots", cf, 0, [], [{"op": "closeobj", "w": 0}, {"op": "closepack", "w": 1}, {"op": "newobj", "w": 0, "k": 3}, {"op": "newobj", "w": 0, "k": 4},
                                         {"op": "newpack", "w": 2, "p": 3}, {"op": "newpack", "w": 2, "p": 5}, {"op": "closeobj", "w": 0}, {"op": "closepack", "w": 2}] + all_lookups(3))
+        # several writers open at once: every interleaving of 2 writers (objects / packs / mixed) x every placement of
+        # a reader in the gaps; 3 writers, abandoned writers and failing RawObjectWriter calls sampled (thorough: more)
+        ex = {"excl": True, "fs": "mem", "memidx": False}
+        for kinds in ("oo", "pp", "op", "po"):
+            for order in orderings(2):
+                for gaps in range(1 << (len(order) + 1)):
+                    rd = READERS[(gaps + len(cases)) % len(READERS)]
+                    add("writers-2", ex if gaps % 4 else {"excl": True, "fs": "os", "memidx": True}, 0, [], writers_history(kinds, order, gaps, rd))
+        ord3 = orderings(3)
+        for _ in range(60 if tier == "quick" else 1500):
+            kinds = "".join(rng.choice("oop") for _ in range(3))
+            order = rng.choice(ord3)
+            add("writers-3", conf(rng) if rng.random() < 0.3 else ex, rmask(rng, 0.2), [], writers_history(
+                kinds, order, rng.randrange(1 << (len(order) + 1)), rng.choice(READERS),
+                abandon=rng.choice([None, None, 0, 1, 2]), fail_at=rng.choice([None, None, 0, 1, 2, 3])))
+        for kinds in ("oo", "op", "ooo"):
+            m = len(kinds)
+            for order in orderings(m)[:: (1 if m == 2 else 9)]:
+                for ab in range(m):
+                    add("abandoned", ex, 0, [], writers_history(kinds, order, (1 << (len(order) + 1)) - 1, READERS[(ab + len(cases)) % 4], abandon=ab))
+                add("failed-header", ex, 0, [], writers_history(kinds, order, 0b10101, READERS[len(cases) % 4], fail_at=0))
+                add("failed-header", {"excl": False, "fs": "os", "memidx": False}, 0, [], writers_history(kinds, order, 0b01010, READERS[len(cases) % 4], fail_at=1))
         # enumerated short interleavings (exclusive mode, where the caches live)
         k = 4 if tier == "quick" else 5
         seqs = list(itertools.product(range(len(ENUM_ALPHA)), repeat=k))
@@ -189,10 +269,11 @@ class Main(Suite):
             steps = [dict(ENUM_ALPHA[i]) for i in sq] + [{"op": "closeobj", "w": 0}, {"op": "closepack", "w": 0}] + all_lookups(1)[:5] + [{"op": "get", "k": 2, "t": ""}]
             add("enum", {"excl": True, "fs": "mem", "memidx": False}, 0, [], steps)
         # random histories
-        while len(cases) < n + len(seqs):
+        fixed = len(cases)
+        while len(cases) < fixed + n:
             cf = conf(rng)
             packs = [m for m in (rmask(rng) for _ in range(rng.randrange(3))) if m]
-            add("random", cf, rmask(rng, 0.3), sorted(set(packs)), random_history(rng, rng.randrange(4, 17)))
+            add("random", cf, rmask(rng, 0.3), sorted(set(packs)), random_history(rng, rng.randrange(4, 22)))
         return cases
 
     def model_expr(self, c):
